@@ -46,6 +46,8 @@ KEYS = ["j", "k", "l", "h", "w", "b", "$", "0", "G", "1G", "5G", "H", "M", "L", 
         ":3d\n", ":$d\n", ":1,3d\n", ":s/o/0/g\n", ":g/foo/d\n", ":2\n", ":$\n", ":1\n", ":se hll\n", ":se nohl\n", ":%p\n", ":ec hi\n", ":u\n",
         "/foo\n", "?bar\n", "n", "N", "\x07", "ma", "'a", "``",
         # scrolling that pushes the cursor off its line (cursor on the first/last row, at a column beyond tabs or wide characters)
+        # puts of character-wise text that spans lines, with counts
+        "y}2p", "y}3P", "ly}jj2p", "d}2P", "majjlly`a3G2p", "majly`ap", "y/a\n2p", "wy}k3p", "y}G2p", "lly2j2P",
         # yanks that move the cursor (to the start of the region) without changing anything
         "yb", "y0", "yk", "y2k", "$yb", "Lyk", "yH", "y{", "$y^", "12|yk",
         # one insert that makes several lines: an earlier line wider than the window (typed while the row was scrolled sideways), and
